@@ -1,4 +1,5 @@
-import SiaModel.Codec.Schema
+import SiaModel.Codec.Comb
+import SiaModel.Gen.FactsSchema
 /-!
 # SiaModel.Codec.Irregular — hand-written schema models of irregular codecs
 
@@ -27,12 +28,52 @@ def rhp3ExecuteProgramRequest : Sch :=
   Sch.seq [("FileContractID", .fixed 32), ("Program", .uslice (.ext "Rhp3.Instruction")),
     ("ProgramData", .bytes)]
 
+/-! ### `types.V2FileContractResolution` — parent element, one-byte type tag, payload -/
+
+/-- tag → payload type, as written in `V2FileContractResolution.EncodeTo/DecodeFrom`
+(tied to the code by `C11.tie_resolution_tags`) -/
+def resolutionTags : List (String × Nat) :=
+  [("V2FileContractRenewal", 0), ("V2StorageProof", 1), ("V2FileContractExpiration", 2)]
+
+/-- the payload codec by tag; the payloads are the generated (regular) schemas -/
+def resolutionPayload (E : Env) : Codec := Codec.tagged [
+  (0, Codec.ofSch E Gen.encSchema_Types_V2FileContractRenewal),
+  (1, Codec.ofSch E Gen.encSchema_Types_V2StorageProof),
+  (2, Codec.ofSch E Gen.encSchema_Types_V2FileContractExpiration)]
+
+/-- `res.Parent.EncodeTo(e); e.WriteUint8(tag); res.Resolution.EncodeTo(e)` -/
+def resolutionSch : Sch := Sch.seq [
+  ("Parent", Gen.encSchema_Types_V2FileContractElement),
+  ("Resolution", .ext "Types.V2FileContractResolution.payload")]
+
+/-- environment with the resolution payload -/
+def env1 : Env := Env.default.with "Types.V2FileContractResolution.payload" (resolutionPayload Env.default)
+
+/-- environment with resolutions -/
+def env2 : Env := env1.with "Types.V2FileContractResolution" (Codec.ofSch env1 resolutionSch)
+
+/-! ### `types.V2Transaction` — version byte, presence bitmap, present fields
+
+The field list (bit, Go field, emptiness test, field schema) is the GENERATED one
+(`Gen.v2TxnFieldsEnc`, read off the `if fields&(1<<i) != 0` blocks), so the model always
+mirrors the code; `Spec.v2TransactionFields` is the committed layout it is tied to. -/
+
+def v2TxnBitFields (E : Env) (fs : List (Nat × String × ZeroKind × Sch)) : List BitField :=
+  fs.map fun t => { c := Codec.ofSch E t.2.2.2, isZero := isZeroVal t.2.2.1 }
+
+def v2TxnCodec (E : Env) : Codec := Codec.bitmap Gen.v2TxnVersionEnc (v2TxnBitFields E Gen.v2TxnFieldsEnc)
+
+/-- the environment of hand-modelled irregular codecs used by the driver -/
+def env : Env := env2.with "Types.V2Transaction" (v2TxnCodec env2)
+
 /-- hand-modelled codecs addressable by the driver like the generated ones:
 (name, encoder schema, decoder schema) -/
 def handSchemas : List (String × Sch × Sch) := [
   ("Types_V1Currency", v1Currency, v1Currency),
   ("Rhp2_RPCReadResponse", rhp2ReadResponse, rhp2ReadResponse),
-  ("Rhp3_RPCExecuteProgramRequest", rhp3ExecuteProgramRequest, rhp3ExecuteProgramRequest)
+  ("Rhp3_RPCExecuteProgramRequest", rhp3ExecuteProgramRequest, rhp3ExecuteProgramRequest),
+  ("Types_V2FileContractResolution", .ext "Types.V2FileContractResolution", .ext "Types.V2FileContractResolution"),
+  ("Types_V2Transaction", .ext "Types.V2Transaction", .ext "Types.V2Transaction")
 ]
 
 end Sia.Codec.Irregular
